@@ -56,7 +56,7 @@ func c05Run(r *engine.Run) int {
 		}
 	}
 	n := 0
-	engine.Map("c05", cases, func(i int, c json.RawMessage, res *engine.Result) {
+	r.MapBudget("c05", cases, func(i int, c json.RawMessage, res *engine.Result) {
 		r.Add("c05", c, res)
 		n++
 		if n%97 == 1 && res.Data != nil {
